@@ -2,8 +2,9 @@
   Lemmas/GenEqIro — the regenerated translation of the x/iro pure functions (`Gen/Iro.lean`,
   rewritten from /repo's working tree by every check) equals the hand-written model the C13
   theorems are about.  A semantic change to one of these Go functions changes the generated term
-  and breaks the corresponding lemma here (e.g. repairing F5 — scaling the exact-spend result by the
-  supply decimals — breaks `tokensForExactIn_eq`, and the model must follow).
+  and breaks the corresponding lemma here (this is how the repairs of F5 — exact-spend result scaled by
+  the supply decimals — and F16 — truncated vesting ratio — showed up: `iro_tokensForExactIn_eq` and
+  `iro_vestedAmt_eq` stopped checking until the model followed).
 -/
 import DymVerif.Gen.Iro
 import DymVerif.Lemmas.IroArith
@@ -20,8 +21,8 @@ theorem iro_cost_eq (I : Int → Int) (L : Nat) (x x1 : Int) :
   have e0 : pow10 (18 - 18) = 1 := by decide
   simp [Gen.Iro.cost, Iro.cost, Gen.Iro.scaleFromBase, Gen.Iro.scaleToBase, Iro.scaleToBase, e0]
 
-/-- `BondingCurve.TokensForExactInAmount` with 18 supply decimals — including the scaling of the
-    result by the LIQUIDITY decimals that the source currently has -/
+/-- `BondingCurve.TokensForExactInAmount` with 18 supply decimals — including which decimals the
+    Newton result is converted with (the supply's) -/
 theorem iro_tokensForExactIn_eq (T : Int → Int → Option Int) (L : Nat) (currX spendAmt : Int) :
     Gen.Iro.tokensForExactInAmount T 18 L currX spendAmt = Iro.tokensForExactIn T L currX spendAmt := by
   unfold Gen.Iro.tokensForExactInAmount Iro.tokensForExactIn
